@@ -1,5 +1,6 @@
 SPECIFICATION Spec
 CONSTANTS
+  GridN = 90
   MaxSmall = 5
   BigSizes = {9999, 10001, 19999, 20000, 20001, 20002, 25000, 30000, 40000, 60001}
 CHECK_DEADLOCK FALSE
